@@ -32,13 +32,16 @@ type CmdSpec struct {
 	// Deferred: the handler returns an empty channel; the walker completes it (with an error if
 	// Fails) after the first poll that answered "waiting".
 	Deferred bool
+	// ByClose: completion is reported by closing the channel instead of sending nil on it.
+	ByClose bool
 }
 
 // Deferred completions: channels handed out by deferred handlers and not yet completed. The
 // walkers are single-threaded; the list belongs to the runner being walked.
 type pendingCompletion struct {
-	ch    chan error
-	fails bool
+	ch      chan error
+	fails   bool
+	byClose bool
 }
 
 var deferredCompletions []pendingCompletion
@@ -46,9 +49,12 @@ var deferredCompletions []pendingCompletion
 // CompleteDeferred completes every command whose handler deferred its completion.
 func CompleteDeferred() {
 	for _, p := range deferredCompletions {
-		if p.fails {
+		switch {
+		case p.fails:
 			p.ch <- errHost
-		} else {
+		case p.byClose:
+			close(p.ch)
+		default:
 			p.ch <- nil
 		}
 	}
@@ -154,9 +160,11 @@ func (hs *HostSpec) Install(dr *ysgo.DialogueRunner, log *[]string) {
 			switch {
 			case c.Pending:
 			case c.Deferred:
-				deferredCompletions = append(deferredCompletions, pendingCompletion{ch, c.Fails})
+				deferredCompletions = append(deferredCompletions, pendingCompletion{ch, c.Fails, c.ByClose})
 			case c.Fails:
 				ch <- errHost
+			case c.ByClose:
+				close(ch)
 			default:
 				ch <- nil
 			}
